@@ -16,10 +16,16 @@ def recNum : Rec → Nat
 def gainSym : Gain → String
   | .high => "H" | .drain => "D" | .val c => toString c
 
+/-- positional, same order as the harness (`state()` in zz_verif_c12_bbr.go):
+    mode rtc lastSent roundEnd lossEvents bytesLostRound minRtt minRttTs cwnd initCwnd maxCwnd minCwnd pacingRate
+    pacingGain cycleOffset lastCycleStart | full roundsWoGain bwAtLastRound exitingQuiescence exitProbeRttAt
+    probeRttRoundPassed lastSampleAppLimited hasNonAppLimitedSample recoveryState endRecoveryAt recoveryWindow
+    detectOvershooting bytesLostOvershoot cwndForMinPacing maxCwndAdjusted mds bytesInFlight |
+    GetCongestionWindow bandwidthForPacer CanSend(0) -/
 def showState (s : S) (bps : Int) : String :=
-  s!"m={modeNum s.mode} rtc={s.roundTripCount} lsp={s.lastSentPacket} cre={s.currentRoundTripEnd} nle={s.numLossEventsInRound} blr={s.bytesLostInRound} mr={s.minRtt} mrt={s.minRttTimestamp} cw={s.cwnd} icw={s.initCwnd} mxw={s.maxCwnd} mnw={s.minCwnd} pr={s.pacingRate} pg={gainSym s.pacingGain} co={s.cycleOffset} lcs={s.lastCycleStart}" ++
-  s!" full={showBool s.isAtFullBandwidth} rwg={s.roundsWithoutGain} balr={s.bandwidthAtLastRound} xq={showBool s.exitingQuiescence} xpr={s.exitProbeRttAt} prp={showBool s.probeRttRoundPassed} lsal={showBool s.lastSampleIsAppLimited} hnal={showBool s.hasNoAppLimitedSample} rs={recNum s.rcv} era={s.endRecoveryAt} rw={s.recWnd} dov={showBool s.detectOvershooting} blo={s.bytesLostOvershoot} cmp={s.cwndForMinPacing} mxa={s.maxCwndAdjusted} mds={s.mds} bif={s.bytesInFlight}" ++
-  s!" | gcw={getCwnd s} bwp={bandwidthForPacer bps} cs0={showBool (canSend s 0)}"
+  s!"{modeNum s.mode} {s.roundTripCount} {s.lastSentPacket} {s.currentRoundTripEnd} {s.numLossEventsInRound} {s.bytesLostInRound} {s.minRtt} {s.minRttTimestamp} {s.cwnd} {s.initCwnd} {s.maxCwnd} {s.minCwnd} {s.pacingRate} {gainSym s.pacingGain} {s.cycleOffset} {s.lastCycleStart}" ++
+  s!" | {showBool s.isAtFullBandwidth} {s.roundsWithoutGain} {s.bandwidthAtLastRound} {showBool s.exitingQuiescence} {s.exitProbeRttAt} {showBool s.probeRttRoundPassed} {showBool s.lastSampleIsAppLimited} {showBool s.hasNoAppLimitedSample} {recNum s.rcv} {s.endRecoveryAt} {s.recWnd} {showBool s.detectOvershooting} {s.bytesLostOvershoot} {s.cwndForMinPacing} {s.maxCwndAdjusted} {s.mds} {s.bytesInFlight}" ++
+  s!" | {getCwnd s} {bandwidthForPacer bps} {showBool (canSend s 0)}"
 
 def parsePkts (s : String) : Option (List (Int × Nat)) :=
   if s = "-" then some []
@@ -28,22 +34,20 @@ def parsePkts (s : String) : Option (List (Int × Nat)) :=
     | [a, b] => do let pn ← a.toInt?; let sz ← b.toNat?; pure (pn, sz)
     | _ => none
 
-/-- value of `key=` among the fields -/
-def kv (fs : List String) (key : String) : Option String :=
-  fs.findSome? fun f => if f.startsWith (key ++ "=") then some (f.drop (key.length + 1)).toString else none
-
-def kvNat (fs : List String) (key : String) : Option Nat := (kv fs key).bind String.toNat?
-def kvInt (fs : List String) (key : String) : Option Int := (kv fs key).bind String.toInt?
-def kvBool (fs : List String) (key : String) : Option Bool := (kv fs key).bind parseBool
-
-def parseEnv (fs : List String) : Option Env := do
-  let srtt ← kv fs "srtt"
-  let sampleRtt ← if srtt = "inf" then some none else srtt.toNat?.map some
-  pure { sampleValid := ← kvBool fs "sv", sampleAppLimited := ← kvBool fs "sa", sendStateInflight := ← kvNat fs "si",
-         sampleRtt := sampleRtt, bytesAcked := ← kvNat fs "ba", bytesLost := ← kvNat fs "bl", totalAcked := ← kvNat fs "ta",
-         excessAcked := ← kvNat fs "xa", maxAckHeight := ← kvNat fs "mah", bw := ← kvNat fs "bw", rttMin := ← kvNat fs "rtt",
-         tgtPacing := ← kvNat fs "tp", tgt1 := ← kvNat fs "t1", tgtCwnd := ← kvNat fs "tc", growthTarget := ← kvNat fs "gt",
-         lossThresh := ← kvNat fs "lt", targetRate := ← kvNat fs "tr", rnd := ← kvNat fs "rnd" }
+/-- the recorded environment, positional: sampleValid sampleAppLimited sendStateInflight sampleRtt bytesAcked
+    bytesLost totalAcked excessAcked maxAckHeight bw rttMin tgtPacing tgt1 tgtCwnd growthTarget lossThresh
+    targetRate rnd bps -/
+def parseEnv : List String → Option (Env × Int)
+  | [sv, sa, si, srtt, ba, bl, ta, xa, mah, bw, rtt, tp, t1, tc, gt, lt, tr, rnd, bps] => do
+    let sampleRtt ← if srtt = "inf" then some none else srtt.toNat?.map some
+    let env : Env :=
+      { sampleValid := ← parseBool sv, sampleAppLimited := ← parseBool sa, sendStateInflight := ← si.toNat?,
+        sampleRtt := sampleRtt, bytesAcked := ← ba.toNat?, bytesLost := ← bl.toNat?, totalAcked := ← ta.toNat?,
+        excessAcked := ← xa.toNat?, maxAckHeight := ← mah.toNat?, bw := ← bw.toNat?, rttMin := ← rtt.toNat?,
+        tgtPacing := ← tp.toNat?, tgt1 := ← t1.toNat?, tgtCwnd := ← tc.toNat?, growthTarget := ← gt.toNat?,
+        lossThresh := ← lt.toNat?, targetRate := ← tr.toNat?, rnd := ← rnd.toNat? }
+    pure (env, ← bps.toInt?)
+  | _ => none
 
 abbrev St := Option S
 
@@ -54,20 +58,20 @@ def step (st : St) (line : String) : St × String :=
   match fs with
   | "note" :: _ => (st, "note")
   | "stall" :: _ => (st, "note")
-  | "new" :: p :: mds :: rest =>
-    match cfgOf p, mds.toNat?, kvInt rest "bps" with
+  | ["new", p, mds, bps] =>
+    match cfgOf p, mds.toNat?, bps.toInt? with
     | some cfg, some mds, some bps =>
       let s := new cfg mds
       (some s, s!"ok {showState s bps}")
     | _, _, _ => (st, "bad-op")
-  | "sent" :: infl :: pn :: rest =>
-    match st, infl.toNat?, pn.toInt?, kvInt rest "bps" with
+  | ["sent", infl, pn, bps] =>
+    match st, infl.toNat?, pn.toInt?, bps.toInt? with
     | some s, some infl, some pn, some bps =>
       let s' := onPacketSent s infl pn
       (some s', s!"ok {showState s' bps}")
     | _, _, _, _ => (st, "bad-op")
-  | "mds" :: n :: rest =>
-    match st, n.toNat?, kvInt rest "bps" with
+  | ["mds", n, bps] =>
+    match st, n.toNat?, bps.toInt? with
     | some s, some n, some bps =>
       match setMds s n with
       | .ok s' => (some s', s!"ok {showState s' bps}")
@@ -75,13 +79,13 @@ def step (st : St) (line : String) : St × String :=
       | .reject => (st, "reject")
     | _, _, _ => (st, "bad-op")
   | "ev" :: prior :: now :: a :: l :: rest =>
-    match st, prior.toNat?, now.toNat?, parsePkts a, parsePkts l, parseEnv rest, kvInt rest "bps" with
-    | some s, some prior, some now, some a, some l, some env, some bps =>
+    match st, prior.toNat?, now.toNat?, parsePkts a, parsePkts l, parseEnv rest with
+    | some s, some prior, some now, some a, some l, some (env, bps) =>
       match onCongestionEvent s { prior := prior, now := now, acked := a, lost := l, env := env } with
-      | .ok (s', lu) => (some s', s!"ok {showState s' bps} lu={lu}")
+      | .ok (s', lu) => (some s', s!"ok {showState s' bps} {lu}")
       | .panic => (st, "panic")
       | .reject => (st, "reject")
-    | _, _, _, _, _, _, _ => (st, "bad-op")
+    | _, _, _, _, _, _ => (st, "bad-op")
   | _ => (st, "bad-op")
 
 end Hy.Drv.Bbr
